@@ -10,7 +10,7 @@ CHECKS = {
    note="Trusted: the reference scorers / STV step relation used to decide when ValueError is allowed; 'terminates' is restated as <=2n+4 rounds and <=5e6 python calls. Known findings are suppressed only by mechanism predicates in vk/oracle.py.",
    ref="§4 C01"),
  "C02": dict(
-   technique="trace validation: every recorded STV/IRV/SequentialRCV round checked against a nondeterministic reference step relation (exact rationals) that follows the observed choice at ties; transfer spy on the public transfer= parameter; scripted RNG tree",
+   technique="trace validation: every recorded STV/IRV/SequentialRCV round checked against a nondeterministic reference step relation (exact rationals) that follows the observed choice at ties; transfer spy on the public transfer= parameter; scripted RNG tree; a tie for first at/above the quota with more tied candidates than open seats and no tiebreak must have raised ValueError",
    text="Each recorded round of real STV-family runs must be one of the steps the C02 statement allows from the reference state (quota, who is elected, transfer factor, default election, elimination with initial-first-place tie filter), with tallies and candidate order recomputed independently. Holds on the traces observed.",
    note="Trusted: vk/ref/stv.py as the reading of the statement. Runs whose constructor raises are judged by C01.",
    ref="§4 C02"),
@@ -40,7 +40,7 @@ CHECKS = {
    note="Conservative coalition reading (first |S| positions exactly S). Runs that raise are judged by C01.",
    ref="§4 C07"),
  "C08": dict(
-   technique="metamorphic runtime monitor (rename / permute / split / merge / candidate order) on RNG-tapped deterministic executions, plus cross-process differential runs of the same shard under several PYTHONHASHSEED values",
+   technique="metamorphic runtime monitor (rename / permute / split / merge / candidate order) on RNG-tapped deterministic executions, plus cross-process differential runs of the same shard under several PYTHONHASHSEED values; profiles without a candidate list; a count that draws randomness under one hash seed only is a failure",
    text="Every deterministic path (RNG tap saw no draw) of every ranking, scoring and pairwise rule and of the scoring utilities is re-run on transformed copies of the profile and must give the canonically identical (resp. renamed) rounds; the same cases are executed in separate interpreters under 4 (thorough 16) hash seeds and the canonical outcomes byte-compared.",
    note="Canonical forms sort inside tied groups, so only differences the statement forbids are compared.",
    ref="§4 C08"),
@@ -50,7 +50,7 @@ CHECKS = {
    note="Consistency clauses are judged only for elections whose construction drew no randomness (as the statement says); purity for all.",
    ref="§4 C09"),
  "C10": dict(
-   technique="runtime monitor: RNG tap + scripted re-execution (outcome invariance unless a tiebreak is recorded), per-rule validity oracle for every recorded tiebreak, reference scores for borda/first_place resolutions",
+   technique="runtime monitor: RNG tap + scripted re-execution (outcome invariance unless a tiebreak is recorded), per-rule validity oracle for every recorded tiebreak, reference scores for borda/first_place resolutions; randomness outside the wrapped primitives is detected on the global generators' state / private generators and such runs (plus a sample of draw-free runs) are repeated under three real seeds; runs with identical tiebreak records must have one outcome",
    text="Non-random rules are run on profiles engineered to tie at the seat boundary, at the elimination end and nowhere; runs that draw randomness are re-executed over the scripted choice tree; each recorded tiebreak must be a strict order of a genuinely tied, order-relevant set that the round's groups obey, and score tiebreaks must be non-increasing on the reference score of the profile the rule passes.",
    note="'Deciding tally' is read per rule (DESIGN §4 C10). Randomness that does not influence the outcome is not flagged.",
    ref="§4 C10"),
@@ -80,12 +80,12 @@ CHECKS = {
    note="Float inputs are read as their exact binary value.",
    ref="§4 C15"),
  "C16": dict(
-   technique="law-mode RNG interposition (arguments of np.random.choice / uniform matched to the model's interval per bloc and slate, drawn orders traced onto the ballots), MCMC kernel extraction by scripted single steps + detailed-balance check, end-to-end frequency tests with Hoeffding thresholds, spatial rankings recomputed from returned positions",
+   technique="law-mode RNG interposition (arguments of np.random.choice / uniform matched to the model's interval per bloc and slate, drawn orders traced onto the ballots), MCMC kernel extraction by scripted single steps + detailed-balance check, end-to-end frequency tests with Hoeffding thresholds, spatial rankings recomputed from returned positions; MCMC trajectory validation through the public entry points (proposals and acceptance uniforms scripted, every returned ballot must be the Metropolis chain's state); what slate_PlackettLuce asks its pattern sampler for; per-model minimum observations",
    text="Each distribution clause is decided twice: exactly, by checking what is handed to the sampling primitive and how its result is used (trusting the primitive's documented semantics), and end-to-end by 20k (thorough 200k) ballot frequency tests against closed forms with an explicit false-alarm bound of 1e-9 per test. MCMC samplers are decided by extracting the kernel one scripted step at a time and checking detailed balance against the closed-form table.",
    note="Frequency tests only bound deviations above the stated threshold (~2.5% quick, ~0.8% thorough).",
    ref="§4 C16"),
  "C17": dict(
-   technique="law-mode RNG interposition on random.choices / random.uniform / np.random.choice / random.sample along scripted paths, closed-form recursion for winner sequences, exact single-draw law extraction (grid + bisection on a scripted uniform) when the draw does not go through random.choices, frequency tests with Hoeffding thresholds",
+   technique="law-mode RNG interposition on random.choices / random.uniform / np.random.choice / random.sample along scripted paths, closed-form recursion for winner sequences, exact single-draw law extraction (grid + bisection on a scripted uniform) when the draw does not go through random.choices, frequency tests with Hoeffding thresholds; random-tiebreak law for the composite, pairwise and all score rules",
    text="RandomDictator and BoostedRandomDictator are run under scripted streams: each ballot draw must offer exactly the current profile's ballots with their weights (induced law = first-place share with ties split), the boosted rule's branch is probed at u = tau +- 1e-9 for every tau = 1/(c-1), the squares branch's (candidates, p) compared with squared shares; random tiebreaks must permute exactly the tied set uniformly and be recorded as drawn; winner-sequence frequencies are compared with the closed form.",
    note="Trusts the documented semantics of the primitives; frequency tests bound only deviations above the threshold.",
    ref="§4 C17"),
@@ -95,7 +95,7 @@ CHECKS = {
    note="Candidate names are non-numeric strings (pandas re-types numeric cells).",
    ref="§4 C18"),
  "C19": dict(
-   technique="runtime monitor: exact rational p-norm reference and metric axioms on generated triples; exhaustive node/edge comparison of BallotGraph(n), n=2..6, with an explicit reference graph",
+   technique="runtime monitor: exact rational p-norm reference and metric axioms on generated triples; exhaustive node/edge comparison of BallotGraph(n), n=2..6, with an explicit reference graph (n=1..6)",
    text="lp_dist is compared with the exact p-norm for p in {1,2,3,5,inf}, must be exactly 0 for reordered / condensed / rescaled / split copies, symmetric and triangular; BallotGraph(n) is enumerated completely for n=2..6 on every run; loading profiles puts every ballot's weight on its node.",
    note="Tolerances: value 1e-9 relative, symmetry/triangle 1e-12.",
    ref="§4 C19"),
